@@ -7,7 +7,7 @@ use crate::visitor::{
     ident_provider::{IdentKind, IdentProvider},
 };
 use swc::atoms::JsWord;
-use swc_common::{util::take::Take, SyntaxContext, DUMMY_SP};
+use swc_common::{util::take::Take, Spanned, SyntaxContext, DUMMY_SP};
 use swc_ecma_ast::*;
 use swc_ecma_visit::{Visit, VisitMut, VisitMutWith};
 
@@ -299,6 +299,9 @@ impl OptChainTransform {
         csi_methods: &CsiMethods,
         ident_provider: &mut dyn IdentProvider,
     ) -> TransformResult<Expr> {
+        // the guard stands where the chain stood: its opening parenthesis takes the position of the chain, so that the
+        // injected tokens that follow it resolve into the statement of the chain and not into the one before it
+        let chain_span = opt_chain_expr.span();
         let visitor = &mut OptChainVisitor::default(ident_provider, csi_methods);
         opt_chain_expr.visit_mut_with(visitor);
 
@@ -336,7 +339,7 @@ impl OptChainTransform {
         visitor.assignments.push(Expr::Cond(cond));
 
         let expr = Expr::Paren(ParenExpr {
-            span: DUMMY_SP,
+            span: chain_span,
             expr: Box::new(Expr::Seq(SeqExpr {
                 span: DUMMY_SP,
                 exprs: visitor
